@@ -430,7 +430,14 @@ pub fn expr_to_source_with_scope(
                 name.clone()
             }
         }
-        Expr::InputReference(field) => format!("#{}", field),
+        Expr::InputReference(field) => {
+            // `#field` is `inputs.field`: a captured inputs record is inlined the same way
+            if let Some(inputs) = scope.get("inputs") {
+                format!("{}.{}", serializable_value_to_source(inputs), field)
+            } else {
+                format!("#{}", field)
+            }
+        }
         // For all other expression types, recursively process with scope
         Expr::Number(n) => {
             if n.fract() == 0.0 && n.abs() < 1e15 {
